@@ -25,7 +25,10 @@ JOIN = {"none": ("", []), "inner": ("JOIN meta m ON k = m.k", ["meta|m|INNER|k=k
         "aliasnested": ("s JOIN meta m ON s.device.id = m.profile.id AND dev.k2 = m.k2", ["meta|m|INNER|device.id=profile.id&dev.k2=k2"]),
         "aliasflat": ("s LEFT JOIN meta AS m ON s.k = m.k", ["meta|m|LEFT|k=k"]),
         # no table alias: the table's own name qualifies its columns
-        "noalias": ("JOIN meta ON k = meta.k AND t = meta.tenant", ["meta|meta|INNER|k=k&t=tenant"])}
+        "noalias": ("JOIN meta ON k = meta.k AND t = meta.tenant", ["meta|meta|INNER|k=k&t=tenant"]),
+        # the table's column written on the LEFT of "=": which side is the table's is decided by the qualifier, not by the position
+        "reversed": ("s JOIN meta m ON m.k = s.k AND t = m.tenant", ["meta|m|INNER|k=k&t=tenant"]),
+        "reversedbare": ("LEFT JOIN meta m ON m.k = dev", ["meta|m|LEFT|dev=k"])}
 # MATCH_RECOGNIZE sub-clauses (spec/sem/MrGrammar.tla): text and the part of MatchRecognizeSpec it must produce
 MR_PART = {"none": ("", []), "one": ("PARTITION BY g ", ["g"]), "two": ("PARTITION BY g, `site id` ", ["g", "site id"])}
 MR_ROWS = {"default": ("", 0), "one": ("ONE ROW PER MATCH ", 0), "all": ("ALL ROWS PER MATCH ", 1)}
